@@ -281,9 +281,14 @@ func diffCase(in caseInput, cfgs []config, o diffOpts) diffOut {
 				continue
 			case "budget":
 				var mech []string
-				if o.Lockstep {
-					// what did the machine do before it stopped making progress?
-					_, st, _ := buildDyn(c, obs.Log)
+				if o.Lockstep || c.V == "mvp6-0" || c.V == "mvp6-1" {
+					// what did the machine do before it stopped making progress? (a termination-only
+					// check records no events: the hanging run is repeated once with the event log on)
+					lg := obs.Log
+					if !o.Lockstep {
+						lg = runMachine(c, in.Src, in.Regs, in.Mem, runOpts{Budget: budget, Log: true, MaxLog: 400000}).Log
+					}
+					_, st, _ := buildDyn(c, lg)
 					if st.SquashedRegWB > 0 && (c.V == "mvp6-0" || c.V == "mvp6-1") {
 						mech = append(mech, "wrong-path-regwrite")
 					}
